@@ -25,6 +25,7 @@ type Clause struct {
 type LoopContract struct {
 	Invariants []*Clause
 	Decreases  *Clause
+	Cuts       []*Clause // "loop N: cut P": intermediate facts proved at the back edge (over the locals of the body) before the invariants, which may then use them
 }
 
 type FuncContract struct {
@@ -53,6 +54,7 @@ type FuncContract struct {
 	SplitLo, SplitHi int64
 	Resets   []*ResetClause
 	IndexAsserts []*CallSite // "index <slice expr>: assert P(idx)"
+	GhostSums []*PureFunc // "ghostsum G(i int) T = term(i)": prefix sums over the entry state
 }
 
 // ResetClause: "resets <ptr expr> zero: f1, f2 scratch: g1, g2" classifies
@@ -569,6 +571,19 @@ func (w *World) parseContractFile(pkgPath, file string) error {
 			if _, ok := w.pureFuncs[pf.Name]; !ok {
 				w.pureFuncs[pf.Name] = pf
 			}
+		case "ghostsum":
+			if cur == nil {
+				return fail(l.n, "ghostsum outside func")
+			}
+			gs, err := parsePureFunc("func " + rest)
+			if err != nil {
+				return fail(l.n, "%v", err)
+			}
+			if len(gs.Params) != 1 || gs.Res == nil {
+				return fail(l.n, "expected 'ghostsum G(i int) T = term'")
+			}
+			gs.PkgPath = pkgPath
+			cur.GhostSums = append(cur.GhostSums, gs)
 		case "property":
 			props := strings.Fields(rest)
 			if cur != nil {
@@ -669,6 +684,8 @@ func (w *World) parseContractFile(pkgPath, file string) error {
 				lc.Invariants = append(lc.Invariants, cl)
 			case "decreases":
 				lc.Decreases = cl
+			case "cut":
+				lc.Cuts = append(lc.Cuts, cl)
 			default:
 				return fail(l.n, "unknown loop clause %q", w2)
 			}
@@ -1696,6 +1713,13 @@ func (e *Env) evalCall(x *Expr) *Val {
 		}
 		return c.convert(e.privateState(), v, v.Typ, t)
 	}
+	if c.ghostFC != nil && x.X.Kind == "ident" {
+		for _, gs := range c.ghostFC.GhostSums {
+			if gs.Name == fname {
+				return e.evalGhostSum(gs, x.Args)
+			}
+		}
+	}
 	if pf := e.findPure(pkg, fname); pf != nil {
 		if len(pf.Params) != len(x.Args) {
 			specErr("pure func %s: wrong argument count", fname)
@@ -2127,4 +2151,75 @@ func patternSafe(t *Term) bool {
 		return true
 	}
 	return rec(t)
+}
+
+// evalGhostSum: "ghostsum G(i int) T = term(i)" in a function contract
+// introduces the prefix sum G(0) = 0, G(n) = G(n-1) + term(n-1) for n > 0
+// (G is arbitrary for negative n), where term is evaluated in the function's
+// ENTRY state, so that G is one fixed mathematical function during the whole
+// verification of that function. Such a function exists for every term (the
+// recurrence is primitive recursive, arithmetic is modulo 2^width), so
+// introducing it is a conservative definitional extension. G is kept as an
+// uninterpreted symbol; every mention G(a) in a specification adds the one
+// instance of the recurrence at a (quantifier-free: no induction is asked of
+// the solver, the loop invariant carries it).
+func (e *Env) evalGhostSum(gs *PureFunc, args []*Expr) *Val {
+	c := e.c
+	if len(args) != 1 {
+		specErr("ghost sum %s takes one argument", gs.Name)
+	}
+	if c.ghostEnv == nil {
+		specErr("ghost sum %s is not available here", gs.Name)
+	}
+	gpkg := c.ghostEnv.pkg
+	rt := c.W.resolveType(gs.Res, gpkg)
+	rw, _, ok := isIntType(rt)
+	if !ok {
+		specErr("ghost sum %s must have an integer type", gs.Name)
+	}
+	pt := c.W.resolveType(gs.Params[0].T, gpkg)
+	pw, _, ok := isIntType(pt)
+	if !ok || pw != 64 {
+		specErr("ghost sum %s: the index must be an int", gs.Name)
+	}
+	av := e.eval(args[0])
+	a := av.T()
+	if av.Typ == untypedInt {
+		a = convW(a, 64)
+	}
+	if a.S != BV(64) {
+		specErr("ghost sum %s: the index must be an int", gs.Name)
+	}
+	if a.hasB {
+		specErr("ghost sum %s cannot be applied to a quantified variable", gs.Name)
+	}
+	name := "ghostsum!" + sanitize(c.ghostFC.Key) + "!" + gs.Name
+	app := func(x *Term) *Term { return UF(name, BV(rw), x) }
+	if c.ghostInst == nil {
+		c.ghostInst = map[*Term]bool{}
+	}
+	key := app(a)
+	if !c.ghostInst[key] {
+		c.ghostInst[key] = true
+		prev := Sub(a, Const(64, 1))
+		ne := c.ghostEnv.child()
+		ne.lookup = nil
+		ne.bound = nil
+		ne.old = nil
+		ne.oldEnv = nil
+		ne.vars[gs.Params[0].Name] = intVal(pt, prev)
+		tv := ne.eval(gs.Body)
+		t := tv.T()
+		if tv.Typ == untypedInt {
+			t = convW(t, rw)
+		}
+		if t.S != BV(rw) {
+			specErr("ghost sum %s: the term has type %s, want %s", gs.Name, tv.Typ, rt)
+		}
+		zero := Const(64, 0)
+		c.assumes = append(c.assumes,
+			Implies(Eq(a, zero), Eq(app(a), Const(rw, 0))),
+			Implies(SLt(zero, a), Eq(app(a), Add(app(prev), t))))
+	}
+	return intVal(rt, key)
 }
